@@ -38,12 +38,17 @@ class FaultyDest(object):
         self.mask = set(mask)
         self.exc = DEST_EXC[exc_index % len(DEST_EXC)]
         self.calls = 0
+        self.runaway = False
         self.every = every
         self.hit = []  # messages on which it raised
 
     def __call__(self, message):
         k = self.calls
         self.calls += 1
+        if message.get("message_type") == "eliot:destination_failure" and "eliot:destination_failure" in str(message.get("message")):
+            # a report about a failed report (unbounded recursion ahead): stop failing, flag it
+            self.runaway = True
+            return
         if k in self.mask or (self.every and k % self.every == 0):
             self.hit.append(dict(message))
             raise self.exc("destination fault on call %d" % k)
@@ -91,6 +96,7 @@ def check_faults(case):
 
     run = P.run_program(program, sink="memory", destinations=dests)
     require(not run.errors, "api-raised", lambda: repr(run.errors))
+    require(not any(f.runaway for f in faulty), "report-on-report", "a failure while delivering a failure report was itself reported")
     info = invariants.check_messages(run.messages)
     info["excluded_f7"] = counter[0]
     hits = [m for f in faulty for m in f.hit]
